@@ -19,6 +19,14 @@ func c10(c *Ctx) {
 	r.Floor("C10.R1", 2)
 	r.Floor("C10.R2", 2)
 	checkStickyLoadFailure(p, r, "C10.R4")
+	// R5: the name handed to the by-name lookup is derived from the caller's designation by exact operations only (shared
+	// with C01.R4 / C06.R4): a character-set trim or a lossy rewrite looks up some other symbol's name
+	checkExactNameDerivation(p, r, "C10.R5")
+	// R6: the symbol table the lookups read is published before any lookup can read it — every entry point passes the
+	// sync.Once before it reaches the lazily loaded table (C11.R1 on the two table variables)
+	if !c.importing {
+		importSiblingWhere(c, "C11", "C10.R6", func(rule string) bool { return rule == "C11.R1" }, func(cons string) bool { return strings.Contains(cons, "symTable") })
+	}
 	// R3: a symbol that was found is reported: under the err==nil continuation of the by-name symbol lookup the exported
 	// lookup functions have no further way to fail (an extra plausibility check can only reject symbols that exist)
 	for _, name := range []string{"FindFuncByName", "FindVarByName"} {
